@@ -26,3 +26,59 @@ void h_lemma_extract_term(void) {
     __CPROVER_assert(ext * s_j == term, "extracted entry times key entry equals the ring term with its sign");
     VERIF_REACH();
 }
+
+/* ---- monomial algebra over the postcondition's index/sign function (C11, C04).
+ * XAI (contracts/c_poly.h) says: coefficient g of X^a * in is  s * in[m]  with (m, s) = sigma(a, g):
+ *   q = g - a;  q >= 0: (q, +);  -N <= q < 0: (q+N, -);  q < -N: (q+2N, +).                              */
+#include "c_poly.h"
+int32_t g_k, g_N;
+/* all quantities are bounded by 3N <= 3e8: 32-bit arithmetic is exact here */
+static inline int32_t sig_idx(int32_t N, int32_t a, int32_t g) { int32_t q = g - a; return q >= 0 ? q : (q >= -N ? q + N : q + 2 * N); }
+static inline int sig_neg(int32_t N, int32_t a, int32_t g) { int32_t q = g - a; return q >= 0 ? 0 : (q >= -N ? 1 : 0); }
+
+#ifndef LEMMA_NMAX
+#define LEMMA_NMAX VERIF_NMAX
+#endif
+void h_lemma_monomial(void) {
+    int32_t N, a, b, g;
+    __CPROVER_assume(N >= 1 && N <= LEMMA_NMAX && a >= 0 && a < 2 * N && b >= 0 && b < 2 * N && g >= 0 && g < N);
+    /* sigma is well defined */
+    int32_t m1 = sig_idx(N, b, g);
+    __CPROVER_assert(m1 >= 0 && m1 < N, "source index in range");
+    /* X^a * (X^b * in) = X^((a+b) mod 2N) * in : same source index, same sign */
+    int32_t m2 = sig_idx(N, a, m1);
+    int s2 = sig_neg(N, b, g) ^ sig_neg(N, a, m1);
+    int32_t c = a + b; if (c >= 2 * N) c -= 2 * N;   /* (a+b) mod 2N, both < 2N */
+    /* proof hint (asserted, then used): both indices are congruent to g - a - b modulo N and lie in [0,N) */
+    int32_t m3 = sig_idx(N, c, g);
+    int32_t d = m2 - m3;
+    __CPROVER_assert(d == 0 || d == N || d == -N || d == 2 * N || d == -2 * N || d == 3 * N || d == -3 * N, "hint: indices congruent modulo N");
+    __CPROVER_assume(d == 0 || d == N || d == -N || d == 2 * N || d == -2 * N || d == 3 * N || d == -3 * N);
+    __CPROVER_assert(m2 == m3 && s2 == sig_neg(N, c, g), "X^a * X^b == X^(a+b mod 2N)");
+    /* X^N = -1, X^0 = 1 */
+    __CPROVER_assert(sig_idx(N, N, g) == g && sig_neg(N, N, g) == 1, "X^N == -1");
+    __CPROVER_assert(sig_idx(N, 0, g) == g && sig_neg(N, 0, g) == 0, "X^0 == 1");
+    /* the ring rule itself: X^a * X^m lands on X^g with sign (-1)^(number of wraps) */
+    int32_t m = sig_idx(N, a, g);
+    __CPROVER_assert((m + a == g && !sig_neg(N, a, g)) || (m + a == g + N && sig_neg(N, a, g)) || (m + a == g + 2 * N && !sig_neg(N, a, g)),
+                     "sigma agrees with X^N = -1: m + a = g + w*N with sign (-1)^w");
+    VERIF_REACH();
+}
+
+/* C04 index lemma: coefficient 0 of the initial accumulator X^(2N-p)*v (v itself when p == 0) is the p-th value of the
+ * anticyclic extension of v: v[p] for p in [0,N), -v[p-N] for p in [N,2N) -- all 2N values of p, boundaries included.
+ * With v == (mu,...,mu) this is +mu on [0,N) and -mu on [N,2N). */
+void h_lemma_testvector(void) {
+    int32_t N, p;
+    __CPROVER_assume(N >= 1 && N <= VERIF_NMAX && p >= 0 && p < 2 * N);
+    int32_t a = (p != 0) ? 2 * N - p : 0;           /* exponent used by blindRotateAndExtract (copy when p == 0) */
+    int32_t m = sig_idx(N, a, 0); int neg = sig_neg(N, a, 0);
+    __CPROVER_assert(p < N ? (m == p && !neg) : (m == p - N && neg), "coefficient 0 of X^(2N-p)*v is v_ext[p]");
+    /* one blind-rotation step multiplies by X^e (e = bara_i*s_i mod 2N): p decreases by e modulo 2N */
+    int32_t e; __CPROVER_assume(e >= 0 && e < 2 * N);
+    int32_t a2 = a + e; if (a2 >= 2 * N) a2 -= 2 * N;
+    int32_t p2 = p - e; if (p2 < 0) p2 += 2 * N;
+    int32_t mm = sig_idx(N, a2, 0); int nn = sig_neg(N, a2, 0);
+    __CPROVER_assert(p2 < N ? (mm == p2 && !nn) : (mm == p2 - N && nn), "after rotating by X^e the extracted value is v_ext[p - e mod 2N]");
+    VERIF_REACH();
+}
